@@ -25,6 +25,8 @@ type mnode struct {
 	// Share: below this node, Stacks and Conditions with the same description are ONE instance stored in
 	// several places (siblings, different branches): still a finite tree as far as Unmarshal is concerned
 	Share bool `json:"shared_instances,omitempty"`
+	// Form: how a nested Stack is stored in its parent ("" native, "alias", "ptr", "ptr-alias")
+	Form string `json:"stored_as,omitempty"`
 }
 
 func (n mnode) String() string {
@@ -54,6 +56,9 @@ func (n mnode) String() string {
 	}
 	if n.Share {
 		f += "&"
+	}
+	if n.Form != "" {
+		f += "<" + n.Form + ">"
 	}
 	return n.Kind + f + "[" + strings.Join(p, " ") + "]"
 }
@@ -123,6 +128,15 @@ func (n mnode) buildWith(shared map[string]any) (out any) {
 		vals = append(vals, k.buildWith(shared))
 	}
 	fill(s, vals, fillMode(n.String()))
+	switch n.Form {
+	case "alias":
+		return StackAlias(s)
+	case "ptr":
+		return &s
+	case "ptr-alias":
+		a := StackAlias(s)
+		return &a
+	}
 	return s
 }
 
@@ -161,7 +175,7 @@ func checkUnmarshal(got any, n mnode, live any, path string) string {
 		}
 		return checkUnmarshal(row[3], ex, c.Expression(), path+".expr")
 	}
-	s, isStack := live.(stackage.Stack)
+	s, isStack := refAsStack(live)
 	if !isStack {
 		return fmt.Sprintf("%s: the original tree holds %T where the description has a Stack (the construction calls did not build the described tree)", path, live)
 	}
@@ -213,7 +227,8 @@ func checkTree(got any, n mnode, orig any, path string) string {
 	if !strings.EqualFold(gs.Kind(), n.Kind) {
 		return fmt.Sprintf("%s: kind %s want %s", path, gs.Kind(), n.Kind)
 	}
-	ge, oe := contents(gs), contents(orig.(stackage.Stack))
+	os, _ := refAsStack(orig)
+	ge, oe := contents(gs), contents(os)
 	if len(ge) != len(oe) {
 		return fmt.Sprintf("%s: %d elements want %d", path, len(ge), len(oe))
 	}
@@ -468,6 +483,38 @@ func c04Trees(c *Ctx) []mnode {
 		deco := d1[i]
 		deco.Deco = true
 		trees = append(trees, deco, mnode{T: "stack", Kind: kindNames[i%5], Deco: true, Kids: []mnode{deco, leaves[i%len(leaves)], {T: "cond", Kw: "dk", Op: 2, Kids: []mnode{deco}}}})
+	}
+	// nested stacks stored as alias values, pointers and pointers to aliases (Unmarshal expands what they
+	// convert to; the reconstruction is native)
+	for i := 0; i < len(d1); i += 3 {
+		for fi, form := range []string{"alias", "ptr", "ptr-alias"} {
+			st := d1[i]
+			st.Form = form
+			in := mnode{T: "stack", Kind: "OR", Form: []string{"ptr", "ptr-alias", "alias"}[fi], Kids: []mnode{st, leaves[i%len(leaves)]}}
+			trees = append(trees, mnode{T: "stack", Kind: kindNames[(i+fi)%5], Kids: []mnode{leaves[0], st}}, mnode{T: "stack", Kind: kindNames[(i+fi+1)%5], Kids: []mnode{in, {T: "cond", Kw: "f", Op: 3, Kids: []mnode{st}}}})
+		}
+	}
+	// deep chains: stacks nested directly within one another, 5 and more levels, with a leaf on either side
+	// of each level, a Condition's expression as one of the links in a second variant
+	depths := []int{5, 6, 9, 17}
+	if !c.Quick() {
+		depths = []int{5, 6, 7, 8, 9, 10, 12, 16, 17, 18, 33, 65}
+	}
+	for _, d := range depths {
+		for variant := 0; variant < 3; variant++ {
+			cur := mnode{T: "stack", Kind: "BASIC", Kids: []mnode{{T: "leaf", V: "bottom", VT: "string"}}}
+			for lvl := d - 1; lvl >= 1; lvl-- {
+				link := cur
+				if variant == 1 && lvl%4 == 2 {
+					link = mnode{T: "cond", Kw: fmt.Sprintf("lvl%d", lvl), Op: 1 + lvl%6, Kids: []mnode{cur}}
+				}
+				if variant == 2 && lvl%3 == 0 {
+					link.Form = []string{"alias", "ptr", "ptr-alias"}[(lvl/3)%3]
+				}
+				cur = mnode{T: "stack", Kind: kindNames[lvl%5], Kids: []mnode{{T: "leaf", V: lvl, VT: "int"}, link, {T: "leaf", V: fmt.Sprintf("after%d", lvl), VT: "string"}}}
+			}
+			trees = append(trees, cur)
+		}
 	}
 	// one instance stored in several places: as siblings, in two branches, below a Condition and next to it
 	for i := 0; i < len(d1); i += 4 {
